@@ -428,7 +428,7 @@ func TestVerifC17(t *testing.T) {
 		return
 	}
 	// pinned minimal sequences: a permanent block followed by a timed one, asked after the
-	// timed term (the defect repaired by 7f68b0d); a long block followed by a short one
+	// timed term (the defect repaired by 6a06465); a long block followed by a short one
 	G := int64(100 * time.Millisecond)
 	run("pinned", c17In{G: G, NP: 1, Ops: []c17Op{{K: "block", P: 0, D: 0}, {K: "block", P: 0, D: 1}, {K: "query", P: 0, Adv: 2}}})
 	run("pinned", c17In{G: G, NP: 2, Ops: []c17Op{{K: "block", P: 1, D: 0}, {K: "block", P: 1, D: 1200}, {K: "dial", P: 1, Adv: 1201},
